@@ -44,9 +44,9 @@ package util
 //@   ensures result2 == nil && errReturn && old(block.Height) > 0 ==> called(VerifySignature) && ret(VerifySignature)
 //@   assert@call VerifySignature: arg1 == block
 //@   assert@call VerifySignature: forall i :: 0 <= i && i < len(block.Txs) ==> sigKnown(block.Txs[i]) || (exists k :: 0 <= k && k < len(arg2) && arg2[k] == block.Txs[i])
-//@   assert@call bytes.Equal#0: arg0 == txHash && arg1 == block.TxHash
+//@   assert@call bytes.Equal#0: arg0 == txHash && arg1 == old(block.TxHash)
 //@   ensures result2 == nil && errReturn ==> ret(Equal, 0)
-//@   assert@call bytes.Equal#1: arg0 == block.StateHash && arg1 == ret0(ExecKVMemSet)
+//@   assert@call bytes.Equal#1: arg0 == old(block.StateHash) && arg1 == ret0(ExecKVMemSet)
 //@   ensures result2 == nil && errReturn ==> ret1(ExecKVMemSet) == nil && ret(Equal, 1)
 //@   ensures result2 == nil ==> !called(ExecKVSetRollback)
 //@   ensures result2 == nil && checkblock && result0.Block.Height > 0 ==> called(CheckBlock) && ret(CheckBlock) == nil
